@@ -40,6 +40,37 @@ def gen_cases(rng, tier):
             ents.append([ix, rng.randint(-2, 2) or 1, rng.randint(-2, 2)])
         cases.append({'kind': 'rdo', 'norb': norb, 'n': na + nb, 'sz': na - nb,
                       'vec': fqeio.random_state(rng, norb, keys, density=0.9, amp=2), 'A': ents})
+    # the specialised contractions (generator antisymmetric + Hermitian / anti-Hermitian), the one-body commutator and the
+    # wavefunction route of the gradient: same oracle <psi|[X, A]|psi>, generators with the symmetry each routine states
+    # (complex, with non-zero "diagonal" entries A[p,q,q,p]), spin-conserving so that the wavefunction route applies them
+    for k in range(9 if tier == 'quick' else 36):
+        norb = 2
+        na, nb = rng.choice([(2, 1), (1, 2), (1, 1), (2, 2), (1, 1), (2, 0)])
+        nso = 2 * norb
+        fn = ['symm', 'antisymm', 'one_symm', 'grad', 'grad', 'antisymm'][k % 6]
+        herm = fn in ('symm', 'one_symm')
+        T = {}
+        for _k in range(rng.randint(2, 6)):
+            while True:
+                ix = [rng.randrange(nso) for _ in range(4)]
+                if ix[0] != ix[1] and ix[2] != ix[3] and sorted(q % 2 for q in ix[:2]) == sorted(q % 2 for q in ix[2:]):
+                    break
+            T[tuple(ix)] = complex(rng.randint(-2, 2) or 1, rng.randint(-2, 2))
+        if rng.random() < 0.7:      # a diagonal entry A[p,q,q,p]
+            p_, q_ = rng.sample(range(nso), 2)
+            T[(p_, q_, q_, p_)] = complex(rng.randint(-2, 2), rng.randint(1, 2))
+        A = {}
+        for (p_, q_, r_, s_), v in T.items():
+            for ix, sg in (((p_, q_, r_, s_), 1), ((q_, p_, r_, s_), -1), ((p_, q_, s_, r_), -1), ((q_, p_, s_, r_), 1)):
+                A[ix] = A.get(ix, 0) + sg * v
+                cix = (ix[3], ix[2], ix[1], ix[0])
+                A[cix] = A.get(cix, 0) + (sg * v.conjugate() if herm else -sg * v.conjugate())
+        ents = [[list(ix), int(v.real), int(v.imag)] for ix, v in sorted(A.items()) if v != 0]
+        if not ents:
+            continue
+        keys = [(na + nb, na - nb)]
+        cases.append({'kind': 'rdo', 'fn': fn, 'norb': norb, 'n': na + nb, 'sz': na - nb,
+                      'vec': fqeio.random_state(rng, norb, keys, density=0.9, amp=2), 'A': ents})
     # factorisation cases need no model query (milliseconds each): many of them, because the singular values of an
     # antisymmetric generator come in degenerate pairs and defects in the degenerate-subspace handling need a
     # numerical coincidence (fix d5ddbdb: about 1 generator in 50 at n = 3)
@@ -67,7 +98,18 @@ def run_impl(case, mode):
             A[tuple(ix)] += complex(re, im)
         tp = numpy.array([complex(*z) for z in case['tpdm']]).reshape((nso,) * 4)
         d3 = numpy.array([complex(*z) for z in case['d3']]).reshape((nso,) * 6)
-        r = bc.two_rdo_commutator(A, tp, d3)
+        fn = case.get('fn', 'plain')
+        if fn == 'plain':
+            r = bc.two_rdo_commutator(A, tp, d3)
+        elif fn == 'symm':
+            r = bc.two_rdo_commutator_symm(A, tp, d3)
+        elif fn == 'antisymm':
+            r = bc.two_rdo_commutator_antisymm(A, tp, d3)
+        elif fn == 'one_symm':
+            r = bc.one_rdo_commutator_symm(A, tp)
+        else:
+            w = fqeio.make_wfn(case['norb'], 'ns', case['n'], case['sz'], case['vec'])
+            r = bc.get_tpdm_grad_fqe(w, A, case['norb'])
         return {'re': numpy.real(r).reshape(-1).tolist(), 'im': numpy.imag(r).reshape(-1).tolist(), 'shape': list(r.shape)}
     if case['kind'] == 'factor':
         from fqe.algorithm import generalized_doubles_factorization as gdf
@@ -131,7 +173,19 @@ def expected(model, case):
         toks = [len(case['A'])]
         for ix, re, im in case['A']:
             toks += ['T', 4, ix[0], 1, ix[1], 1, ix[2], 0, ix[3], 0, re, im]
-        v = _tensor(model, 'COMM4', norb, toks, case['vec'], case['vec'])
+        if case.get('fn') == 'one_symm':
+            # <psi|[p^ q, A]|psi> through the general matrix-element oracle: sum_t c_t (<p^ q . t> - <t . p^ q>)
+            v = []
+            for p_ in range(nso):
+                for q_ in range(nso):
+                    ents = []
+                    for ix, re, im in case['A']:
+                        ents += ['T', 6, p_, 1, q_, 0, ix[0], 1, ix[1], 1, ix[2], 0, ix[3], 0, re, im]
+                        ents += ['T', 6, ix[0], 1, ix[1], 1, ix[2], 0, ix[3], 0, p_, 1, q_, 0, -re, -im]
+                    t = model.q('MATELH', norb, 2 * len(case['A']), *ents, *fqeio.vec_tokens(case['vec']), *fqeio.vec_tokens(case['vec']))
+                    v += [int(t[0]), int(t[1])]
+        else:
+            v = _tensor(model, 'COMM4', norb, toks, case['vec'], case['vec'])
         # exact spin-orbital RDMs in OpenFermion mode order as inputs of the implementation
         def rdm(pat):
             vals = []
@@ -154,13 +208,16 @@ def compare(case, got, exp, mode):
     bad = []
     if case['kind'] in ('acse', 'rdo'):
         nso = 2 * case['norb']
-        if got['shape'] != [nso] * 4:
+        arity = 2 if case.get('fn') == 'one_symm' else 4
+        if got['shape'] != [nso] * arity:
             return ['tensor shape %s' % got['shape']]
         for k, (gr, gi, er, ei) in enumerate(zip(got['re'], got['im'], exp['re'], exp['im'])):
             if abs(gr - er) > 1e-9 * (1 + abs(er)) or abs(gi - ei) > 1e-9 * (1 + abs(ei)):
-                ix = [(k // nso ** (3 - a)) % nso for a in range(4)]
-                name = 'get_acse_residual_fqe' if case['kind'] == 'acse' else 'two_rdo_commutator'
-                bad.append('%s%s = %r%+rj, <psi|[p^ q^ r s, A]|psi> = %d%+dj' % (name, ix, gr, gi, er, ei))
+                ix = [(k // nso ** (arity - 1 - a)) % nso for a in range(arity)]
+                name = 'get_acse_residual_fqe' if case['kind'] == 'acse' else \
+                    {'plain': 'two_rdo_commutator', 'symm': 'two_rdo_commutator_symm', 'antisymm': 'two_rdo_commutator_antisymm',
+                     'one_symm': 'one_rdo_commutator_symm', 'grad': 'get_tpdm_grad_fqe'}[case.get('fn', 'plain')]
+                bad.append('%s%s = %r%+rj, <psi|[%s, A]|psi> = %d%+dj' % (name, ix, gr, gi, 'p^ q' if arity == 2 else 'p^ q^ r s', er, ei))
                 break
         # stated antisymmetries of the exact tensor (sanity of the oracle itself)
         return bad
@@ -190,7 +247,7 @@ def nontrivial(case, exp):
 
 
 def case_class(case):
-    return case['kind'] + ('/' + case['method'] if 'method' in case else '')
+    return case['kind'] + ('/' + case['method'] if 'method' in case else '') + ('/' + case['fn'] if 'fn' in case else '')
 
 
 def shrink(case):
